@@ -1,19 +1,54 @@
 #!/bin/bash
-# Builds the Coq development (full .vo build), extracts the model and links the OCaml driver.
+# Builds the Coq development (full .vo build through coq_makefile), extracts the executable
+# models and links the OCaml drivers.
+#   ./build.sh all            everything (setup_cmd)
+#   ./build.sh C16 train      Props/C16.vo + the extraction/driver groups named after it
+# Conventions: coq/Extract/Ex_<g>.v extracts to ocaml/gen/<g>.ml ; ocaml/drv_<g>.ml is the
+# driver of group <g> and is linked to ocaml/bin/<g>.
 # Serialised with a lock so that concurrently started checks do not trample each other.
-set -e
 cd "$(dirname "$0")"
 exec 9>/verif/.build.lock
 flock 9
+what=${1:-all}; shift || true
+groups="$*"
 cd coq
-[ -f Makefile.coq ] && [ Makefile.coq -nt _CoqProject ] || coq_makefile -f _CoqProject -o Makefile.coq >/dev/null
-mkdir -p ../ocaml/gen
-timeout 3000 make -f Makefile.coq -j16 2>&1 | grep -v "^COQDEP\|^COQC \|^CLEAN" || true
-# make's status (PIPESTATUS is lost through '|| true'), so test the artefacts instead:
-for v in $(grep '\.v$' _CoqProject); do [ -f "${v}o" ] || { echo "BUILD-FAILED $v"; exit 2; }; done
-cd ../ocaml
-if [ ! -x driver ] || [ gen/model.ml -nt driver ] || [ driver.ml -nt driver ] || [ conv.ml -nt driver ]; then
-  ocamlfind ocamlopt -w -a -O3 -I gen gen/model.mli gen/model.ml conv.ml driver.ml -o driver 2>&1 | grep -v "^ocamlfind: \|options -O3" || true
-  [ -x driver ] || { echo "BUILD-FAILED driver"; exit 2; }
+# _CoqProject is generated: flags + every .v below Model/ Proofs/ Props/ Extract/
+{ echo "-Q . FJ"
+  echo "-arg -w -arg -notation-overridden,-deprecated-hint-without-locality,-deprecated-instance-without-locality,-ambiguous-paths,-redundant-canonical-projection,-deprecated-hint-rewrite-without-locality,-extraction-opaque-accessed,-extraction-reserved-identifier,-extraction-logical-axiom"
+  find Model Proofs Props Extract -name '*.v' | sort; } > _CoqProject.new
+if ! cmp -s _CoqProject.new _CoqProject; then mv _CoqProject.new _CoqProject; coq_makefile -f _CoqProject -o Makefile.coq >/dev/null; else rm _CoqProject.new; fi
+[ -f Makefile.coq ] || coq_makefile -f _CoqProject -o Makefile.coq >/dev/null
+mkdir -p ../ocaml/gen ../ocaml/bin
+if [ "$what" = all ]; then
+  targets=""
+  groups=$(ls Extract | sed -n 's/^Ex_\(.*\)\.v$/\1/p')
+  kflag=-k
+else
+  targets="Props/$what.vo"
+  for g in $groups; do targets="$targets Extract/Ex_$g.vo"; done
+  kflag=
 fi
-echo BUILD-OK
+timeout 3300 make -f Makefile.coq -j16 $kflag $targets 2>&1 | grep -v "^COQDEP\|^COQC \|^CLEAN\|^make" | tail -40
+fail=0
+if [ "$what" = all ]; then
+  for v in $(grep '\.v$' _CoqProject); do [ -f "${v}o" ] || { echo "BUILD-FAILED $v"; fail=2; }; done
+else
+  for t in $targets; do [ -f "$t" ] && [ ! "${t%o}" -nt "$t" ] || { echo "BUILD-FAILED $t"; fail=2; }; done
+fi
+cd ../ocaml
+for g in $groups; do
+  [ -f drv_$g.ml ] || continue
+  if [ ! -x bin/$g ] || [ gen/$g.ml -nt bin/$g ] || [ drv_$g.ml -nt bin/$g ] || [ conv.ml -nt bin/$g ] || [ fops.ml -nt bin/$g ]; then
+    rm -rf bin/.b_$g; mkdir -p bin/.b_$g
+    G="$(echo ${g:0:1} | tr a-z A-Z)${g:1}"
+    cp gen/$g.ml gen/$g.mli drv_$g.ml bin/.b_$g/
+    sed "s/MODEL/$G/g" conv.ml > bin/.b_$g/conv.ml
+    extra=""
+    if grep -q "Fops" drv_$g.ml; then sed "s/MODEL/$G/g" fops.ml > bin/.b_$g/fops.ml; extra=fops.ml; fi
+    ( cd bin/.b_$g && ocamlfind ocamlopt -w -a -O3 -package str $g.mli $g.ml conv.ml $extra drv_$g.ml -linkpkg -o ../$g 2>&1 | grep -v "^ocamlfind: \|options -O3" )
+    rm -rf bin/.b_$g
+    [ -x bin/$g ] || { echo "BUILD-FAILED driver $g"; fail=2; }
+  fi
+done
+[ $fail = 0 ] && echo BUILD-OK
+exit $fail
